@@ -278,6 +278,34 @@ def toList (a : Dense K) : List K :=
   (List.range a.nr).flatMap fun i => (List.range a.nc).map fun j => a.el i j
 end Dense
 
+namespace Dense
+/-- `M(i,j) * (r[i]*c[j])` (`rowAndColScale`) -/
+def rowAndColScale (a r c : Dense K) : Dense K := ⟨a.nr, a.nc, fun i j => a.el i j * (r.el i 0 * c.el j 0)⟩
+/-- elementwise function application (`abs()`) -/
+def mapEl (f : K → K) (a : Dense K) : Dense K := ⟨a.nr, a.nc, fun i j => f (a.el i j)⟩
+/-- fold of a binary function over all elements (`normInf` = fold of max over |x|) -/
+def foldEl (f : K → K → K) (init : K) (a : Dense K) : K :=
+  (indexPairs a.nr a.nc).foldl (fun acc p => f acc (a.el p.1 p.2)) init
+def ediv [Div K] (a b : Dense K) : Dense K := ⟨a.nr, a.nc, fun i j => a.el i j / b.el i j⟩
+def einv [Div K] [OfNat K 1] (a : Dense K) : Dense K := ⟨a.nr, a.nc, fun i j => 1 / a.el i j⟩
+def allEl (p : K → Bool) (a : Dense K) : Bool := (indexPairs a.nr a.nc).all fun q => p (a.el q.1 q.2)
+end Dense
+
+/-- store addresses of all elements of a resolved view -/
+def RView.addrList (v : RView) : List Nat := (indexPairs v.nr v.nc).map fun p => v.addr p.1 p.2
+/-- two views of the same store share no cell -/
+def RView.disjoint (a b : RView) : Bool := let lb := b.addrList; a.addrList.all fun x => !lb.contains x
+
+/-! ### `index()` as coded (MatrixHelper.cpp:350-381) versus as documented
+
+The two index constructors build `IndexedVectorHelper(esz, cppEsz, n, isRow, ix, vh.getElt_(0))`, whose element k is at
+`data + eltSize*ix[k]`: the source's stride (or index table) is ignored.  `indexAsCoded` is that address map (in
+elements), `indexDocumented` the one the view should have.  They agree exactly when the source is contiguous
+(`SimbodyProofs/C25.lean`: `index_as_coded_iff`), which is the known finding as a statement about the model. -/
+def AView.indexAsCoded (v : AView) (ix : List Nat) (k : Nat) : Nat := v.addr 0 0 + ix.getD k 0
+def AView.indexDocumented (v : AView) (isRow : Bool) (ix : List Nat) (k : Nat) : Nat :=
+  if isRow then v.addr 0 (ix.getD k 0) else v.addr (ix.getD k 0) 0
+
 /-- fresh column-major store of an nr×nc owner from row-major values -/
 def storeOfRowMajor (nr nc : Nat) (vals : Array K) : Array K :=
   Array.ofFn (n := nr * nc) fun k => vals.getD ((k.val % nr) * nc + k.val / nr) 0
